@@ -19,7 +19,7 @@ RULE = ('(1) seeded token soups of 1-14 tokens over ~330 vocabulary entries (eve
         '#, &, \\\\, %, LT-SKIP comments, accents, shorthands, complete non-recursive definition fragments) x random option vectors; '
         '(2) argument-shape enumeration: for every catalogue macro/environment the product over its declared slots of '
         "{absent,{},[],{x},[x],*,{x unclosed,[x unclosed,}} x followers {EOF,' a',},blank line,$} (complete up to the tier's slot bound, sampled above); "
-        '(3) every token prefix and every single-token deletion of generated well-formed documents. '
+        '(3) every token prefix and every single-token deletion of generated well-formed documents; (4, thorough tier) one atheris / libFuzzer campaign per shard over vocabulary indices. '
         'non-trivial = the input is malformed by an independent test (unbalanced braces/environments/maths, stray #) AND names a declared macro or environment; distinct by (source, options)')
 ASSUMPTIONS = [
     'definition commands occur in soups only as complete, non-recursive, non-duplicating fragments (self-calling and argument-multiplying definitions are outside the claim)',
